@@ -242,7 +242,7 @@ def plan(tier, verif_seed):
     corpus = shipped_corpus()
     tasks = []
     if tier == 'quick':
-        stride, nmut, chunk = 5, 4000, 250
+        stride, nmut, chunk = 5, 20000, 500
     else:
         stride, nmut, chunk = 1, 300000, 1500
     nmut = int(os.environ.get('VERIF_C09_MUTANTS', nmut))
